@@ -413,6 +413,8 @@ func (m *Machine) Next(choice int) Outcome {
 				m.Visits[m.Cur]++
 				if cur.Tracking() == "always" {
 					m.Stats["jump-leaves-tracking-always-node"]++
+				} else if cur.Tracking() != "" {
+					m.Stats["jump-leaves-node-with-other-tracking-value"]++
 				}
 				if m.Visits[m.Cur] > m.MaxVisits {
 					m.MaxVisits = m.Visits[m.Cur]
